@@ -55,6 +55,31 @@ def runCalls {α : Type} (c : Conn α) : List (Call α) → Conn α
   | [] => c
   | k :: ks => runCalls (exec k.fault k.auto k.cmds 0 0 c).conn ks
 
+/-- The same history with every handle released and the library loaded again
+after each call (what the tie's "close at every prefix" stream does). -/
+def runCallsReopen {α : Type} (c : Conn α) : List (Call α) → Conn α
+  | [] => c
+  | k :: ks => runCallsReopen (exec k.fault k.auto k.cmds 0 0 c).conn.reopen ks
+
+/-- A deterministic API model `step : state → op → state × result` (the
+concrete models `Api.CratesV1.step`, `Db.V2.step`, `TracksV2.Db.set` …) seen
+from the connection: a call makes the model's resulting state durable in one
+statement. -/
+def apiCall {α ω : Type} (step : α → ω → α) (op : ω) : Call α :=
+  ⟨[.write fun db => some (step db op)], none, false⟩
+
+/-- An accessor of a concrete model (`crateName db id`, `Db.snapshot ops db id`
+…) as an operation of the monitor alphabet: `n` read statements and the answer
+computed from what the connection sees. -/
+def apiObserver {α β : Type} (n : Nat) (q : α → β) : Op α β := ⟨List.replicate n .read, q⟩
+
+/-- A history over a concrete API model in the monitor's alphabet: mutating
+calls of the model (`inl op`, one writing statement making `step db op`
+durable) interleaved with accessors of the model (`inr (n, q)`, `n` reads). -/
+def histOp {α β ω : Type} (step : α → ω → α) (ans : α → β) : ω ⊕ (Nat × (α → β)) → Op α β
+  | .inl op => ⟨[.write fun db => some (step db op)], ans⟩
+  | .inr (n, q) => apiObserver n q
+
 /-- A call is *settled* when it raised (every scope unwinds) or its scopes are
 properly closed. -/
 def Call.settles {α : Type} (k : Call α) : Prop :=
